@@ -18,6 +18,7 @@ fn run_line(line: &str) -> String {
     let r = std::panic::catch_unwind(move || match streamc.as_str() {
         "SINK" => s_sink::run(&idc, &restc),
         "ENC" => s_enc::run(&idc, &restc),
+        "DLV" => s_enc::run_dlv(&idc, &restc),
         "CNT" => s_cnt::run(&idc, &restc),
         "RICE" => s_rice::run(&idc, &restc),
         _ => format!("{} unknown-stream", idc),
@@ -36,6 +37,7 @@ fn main() {
             match stream.as_str() {
                 "SINK" => s_sink::gen(seed, n, &mut out),
                 "ENC" => s_enc::gen(seed, n, &mut out),
+                "DLV" => s_enc::gen_dlv(seed, n, &mut out),
                 "CNT" => s_cnt::gen(seed, n, &mut out),
                 "RICE" => s_rice::gen(seed, n, &mut out),
                 _ => panic!("unknown stream"),
@@ -55,6 +57,7 @@ fn main() {
                 let (_id, rest) = rest.split_once(' ').unwrap_or((rest, ""));
                 let l = match stream {
                     "ENC" => s_enc::augment(&line, rest),
+                    "DLV" => { let (_m, r2) = rest.split_once(' ').unwrap(); s_enc::augment(&line, r2) }
                     _ => line.clone(),
                 };
                 writeln!(o, "{}", l).unwrap();
